@@ -109,7 +109,7 @@ class HeapGen:
             b = r.choice(self.VARS)
             op = r.weighted([('alias', 3), ('copy', 2), ('plus', 2), ('minus', 1), ('selrange', 2), ('apply', 1), ('filter', 1),
                              ('set', 4), ('pushBack', 4), ('pushBackUnique', 2), ('append', 3), ('deleteAt', 3), ('resize', 2),
-                             ('reverse', 2), ('selfins', 4), ('nest', 3)])
+                             ('reverse', 2), ('selfins', 4), ('nest', 3), ('deeplit', 2), ('deepmut', 4)])
             self.note(op)
             A, Bv = env[a], env[b]
             if op == 'alias':
@@ -175,6 +175,35 @@ class HeapGen:
             elif op == 'reverse':
                 A.reverse()
                 stmts.append('reverse %s' % a)
+            elif op == 'deeplit':
+                n1, n2, n3 = r.below(9), r.below(9), r.below(9)
+                env[a] = [[[n1], n2], [n3]]
+                stmts.append('%s = [[[%d], %d], [%d]]' % (a, n1, n2, n3))
+            elif op == 'deepmut':
+                # mutate an array nested one to three levels below a variable: every alias of that inner array
+                # sees it, every (deep) copy made earlier does not
+                paths = []
+
+                def walk(v, path, depth):
+                    if depth > 3:
+                        return
+                    for i, x in enumerate(v):
+                        if isinstance(x, list):
+                            paths.append((path + [i], x))
+                            walk(x, path + [i], depth + 1)
+                walk(A, [], 1)
+                if paths:
+                    path, target = r.choice(paths)
+                    n = r.below(9)
+                    target.append(n)
+                    expr = a
+                    for i in path:
+                        expr = '(%s select %d)' % (expr, i)
+                    stmts.append('%s pushBack %d' % (expr, n))
+                    self.note('deepmut:depth%d' % len(path))
+                else:
+                    A.append(3)
+                    stmts.append('%s pushBack 3' % a)
             elif op == 'nest':
                 # put one array inside another (aliasing through containers); refused if it closes a cycle
                 via = r.choice(['pushBack', 'set'])
@@ -269,7 +298,7 @@ class CycleGen:
         snaps = []
         refused = 0
         for _ in range(3 + r.below(10)):
-            op = r.weighted([('arr_in_map', 5), ('map_in_arr', 5), ('map_in_map', 4), ('arr_in_arr', 3), ('selfmap', 2), ('selfkey', 1),
+            op = r.weighted([('arr_in_map', 5), ('map_in_arr', 5), ('map_in_map', 4), ('arr_in_arr', 3), ('selfmap', 2), ('selfkey', 1), ('map_in_key', 4),
                              ('wrapmap', 2), ('alias_arr', 1), ('alias_map', 1), ('get', 2), ('delete', 2), ('num', 2), ('fresh', 1)])
             self.note(op)
             a = r.choice(self.AV)
@@ -324,6 +353,16 @@ class CycleGen:
                 else:
                     A.append(Bv)
                 stmts.append('{ %s pushBack %s } except__ { }' % (a, b))
+            elif op == 'map_in_key':
+                # a map (or an array holding it) as part of a key of another map: keys are containers too
+                self.uid = getattr(self, 'uid', 0) + 1
+                inner = r.choice(['%s' % g, '[%s]' % g])
+                if is_or_reaches(G, H):
+                    refused += 1
+                else:
+                    kv = [G, self.uid] if inner == g else [[G], self.uid]
+                    H.items.append((kv, 1))
+                stmts.append('{ %s set [[%s, %d], 1] } except__ { }' % (h, inner, self.uid))
             elif op == 'selfmap':
                 refused += 1
                 stmts.append('{ %s set ["%s", %s] } except__ { }' % (h, key, h))
